@@ -11,7 +11,7 @@ import random
 
 from harness.common import Check, canon
 from harness import sessions_check as S
-from harness.gen_sessions import random_session
+from harness.gen_sessions import random_session, latin_session
 
 PID = "C01"
 CALLS = ("find_answer",)
@@ -55,6 +55,12 @@ def scenarios(chk, tier, seed, calls):
         out.append(("R", random_session(rng, "small", calls)))
     for _ in range(n_wide):
         out.append(("R", random_session(rng, "wide", ("find_answer",), max_product=7000)))
+    # (W) programs too large to enumerate, judged by supplied solutions; half of them under a configured
+    # solver_timeout (cspuz.config), which may make a call refuse loudly but never answer wrongly
+    for n in ((4, 5) if tier == "quick" else (4, 5, 6, 7)):
+        for limit in (None, 0.001):
+            for _ in range(3 if tier == "quick" else 8):
+                out.append(("W", latin_session(rng, n, calls if n <= 5 else ("find_answer",), limit)))
     return out
 
 
@@ -73,6 +79,8 @@ def run(tier, seed, pid=PID, calls=CALLS, backend="z3"):
         v = verdicts[i]
         if v["verdict"].endswith("Z3TimeLimit"):
             chk.extra["inconclusive_z3_time_limit"] = chk.extra.get("inconclusive_z3_time_limit", 0) + 1
+        elif v["verdict"].endswith("ConfiguredTimeLimit"):
+            chk.extra["refused_under_configured_timeout"] = chk.extra.get("refused_under_configured_timeout", 0) + 1
         elif v["verdict"] != "ok":
             ev = traces[i]["events"][v["k"] - 1]
             chk.violation({"clause": v["verdict"]},
@@ -80,7 +88,7 @@ def run(tier, seed, pid=PID, calls=CALLS, backend="z3"):
                           {"source": src, "steps": steps, "rejected_event": ev, "backend": backend})
     if pid == "C01":
         repo_tests_part(chk, ("find_answer",))
-    for src in ("A", "B", "R"):
+    for src in ("A", "B", "R", "W"):
         ex = next((steps for s, steps in sc if s == src), None)
         if ex:
             chk.sample({"source": src, "steps": ex})
@@ -91,7 +99,8 @@ def run(tier, seed, pid=PID, calls=CALLS, backend="z3"):
     chk.extra["events_judged"] = sum(len(t["events"]) for t in traces)
     chk.assumptions = [
         "z3 (z3-solver 5.1) is the solving path exercised; Sugar-family backends are C03",
-        "bounded scopes: <= 6 variables, domain product <= 300 (<= 7000 for the wide profile), tree depth <= 4",
+        "bounded scopes: <= 6 variables, domain product <= 300 (<= 7000 for the wide profile), tree depth <= 4; "
+        "source W (Latin squares of side 4..7) is judged by driver-supplied solutions instead of enumeration",
         "a Python bool is never used as an integer operand",
         "sol after an unsatisfiable answer is unconstrained",
     ]
